@@ -3,6 +3,7 @@ package main
 // Contracts: structured comments (//@ ...) in /repo/<pkg>/contracts_verif.go, keyed by function and loop ordinal.
 
 import (
+	"strconv"
 	"bytes"
 	"go/constant"
 	"math/big"
@@ -47,6 +48,7 @@ type Contract struct {
 	Spawns     map[string][]*Clause // go statement ordinal -> requires on the spawned literal's arguments
 	Ghosts     []GhostParam
 	Inline     bool
+	Split      map[int]bool
 	Trusted    bool // contract assumed, body not verified (listed as assumption)
 	NoFrame    bool
 	Bounded    string
@@ -78,6 +80,26 @@ type Lemma struct {
 	File     string
 	Line     string
 }
+
+// ExternDir: "//@ extern <callee full name> <stub> [leading argument texts...]": calls of the external function in this
+// package are checked against (and summarised by) the contract of the package-local stub function, which is itself
+// trusted (its body is the real call). Leading arguments must be written exactly as given (e.g. &tssQ).
+type ExternDir struct {
+	Callee, Stub string
+	Lead         []string
+	Pos          string
+}
+
+// LockDir: "//@ lock <mutex> guards <global>, <global>": every read or write of the named package-level variables
+// must happen while the mutex is held (ghost lock state).
+type LockDir struct {
+	Mutex   string
+	Globals []string
+	Pos     string
+}
+
+var externDirs = map[string][]*ExternDir{}
+var lockDirs = map[string][]*LockDir{}
 
 var reLabel = regexp.MustCompile(`^([A-Za-z][A-Za-z0-9_#\-]*):\s+(.*)$`)
 
@@ -207,6 +229,22 @@ func parseContractFile(fset *token.FileSet, f *ast.File, pkgPath string) ([]*Con
 			cons = append(cons, cur)
 			curL = nil
 			last = nil
+			continue
+		case "extern":
+			fs := strings.Fields(rest)
+			if len(fs) < 2 {
+				return nil, nil, fmt.Errorf("%s: extern <callee> <stub> [args...]", ln.pos)
+			}
+			externDirs[pkgPath] = append(externDirs[pkgPath], &ExternDir{Callee: fs[0], Stub: fs[1], Lead: fs[2:], Pos: ln.pos})
+			cur, curL, last = nil, nil, nil
+			continue
+		case "lock":
+			fs := strings.Fields(strings.ReplaceAll(rest, ",", " "))
+			if len(fs) < 3 || fs[1] != "guards" {
+				return nil, nil, fmt.Errorf("%s: lock <mutex> guards <globals>", ln.pos)
+			}
+			lockDirs[pkgPath] = append(lockDirs[pkgPath], &LockDir{Mutex: fs[0], Globals: fs[2:], Pos: ln.pos})
+			cur, curL, last = nil, nil, nil
 			continue
 		case "pred":
 			// pred name(a, b) = body      (textual macro; continuation lines with "|")
@@ -356,6 +394,17 @@ func parseContractFile(fset *token.FileSet, f *ast.File, pkgPath string) ([]*Con
 			} else {
 				return nil, nil, fmt.Errorf("%s: aead seal|open", ln.pos)
 			}
+		case "split":
+			// split <if ordinals>: the paths through these if statements (ordinals among the if statements of the
+			// function that are not inside a loop, in source order) are verified separately instead of being merged
+			cur.Split = map[int]bool{}
+			for _, f := range strings.Fields(rest) {
+				n, err := strconv.Atoi(f)
+				if err != nil {
+					return nil, nil, fmt.Errorf("%s: split <if ordinals>", ln.pos)
+				}
+				cur.Split[n] = true
+			}
 		case "noframe":
 			cur.checkFrame = false
 		case "noreturn":
@@ -495,7 +544,11 @@ func rewriteSpec(s string) (string, error) {
 			cur := out.String()
 			out.Reset()
 			out.WriteString(cur[:len(cur)-len(word)])
-			fmt.Fprintf(&out, "all__(func(%s int) bool { return %s })", strings.TrimSpace(args[0]), body)
+			binder := strings.TrimSpace(args[0])
+			if !strings.ContainsAny(binder, " \t") {
+				binder += " int"
+			}
+			fmt.Fprintf(&out, "all__(func(%s) bool { return %s })", binder, body)
 			i = j
 			continue
 		}
@@ -1012,7 +1065,7 @@ func (ex *Exec) evalSpecFunc(name string, call *ast.CallExpr, st *State) []Value
 		body := ex.eval(lit.Body.List[0].(*ast.ReturnStmt).Results[0], sub).scalar()
 		ex.boundObjs = ex.boundObjs[:len(ex.boundObjs)-1]
 		guard := mkAnd(mkCmp("le", lo, bv), mkCmp("lt", bv, hi))
-		side := mkAnd(sub.pc[npc:]...)
+		side := mkAnd(sideFacts(sub.pc[npc:], bv)...)
 		if ex.assuming > 0 {
 			side = tTrue
 		}
@@ -1039,14 +1092,28 @@ func (ex *Exec) evalSpecFunc(name string, call *ast.CallExpr, st *State) []Value
 		info := ex.info()
 		pid := lit.Type.Params.List[0].Names[0]
 		obj := info.Defs[pid]
-		bv := freshVar(pid.Name, sortInt)
+		bt := obj.Type()
+		bsort := sortInt
+		switch u := bt.Underlying().(type) {
+		case *types.Basic:
+			if u.Info()&types.IsString != 0 {
+				bsort = sortStr
+			} else if u.Info()&types.IsInteger == 0 {
+				unsupp("all(): binder type %s", bt)
+			}
+		case *types.Pointer:
+			bsort = sortRef
+		default:
+			unsupp("all(): binder type %s", bt)
+		}
+		bv := freshVar(pid.Name, bsort)
 		sub := st.clone()
 		npc := len(sub.pc)
-		sub.env[obj] = scalarV(types.Typ[types.Int], bv)
+		sub.env[obj] = scalarV(bt, bv)
 		ex.boundObjs = append(ex.boundObjs, obj)
 		body := ex.eval(lit.Body.List[0].(*ast.ReturnStmt).Results[0], sub).scalar()
 		ex.boundObjs = ex.boundObjs[:len(ex.boundObjs)-1]
-		side := mkAnd(sub.pc[npc:]...)
+		side := mkAnd(sideFacts(sub.pc[npc:], bv)...)
 		if ex.assuming > 0 {
 			// representation invariants of values read under the binder hold for every index: no hypothesis needed when the formula is assumed
 			side = tTrue
@@ -1057,6 +1124,10 @@ func (ex *Exec) evalSpecFunc(name string, call *ast.CallExpr, st *State) []Value
 			pats = append(pats, []*Term{t})
 		}
 		return []Value{boolV(mkQuant("forall", []*Term{bv}, full, pats...))}
+	case "hastype":
+		x := ex.eval(call.Args[0], st)
+		tt := ex.info().TypeOf(call.Args[1])
+		return []Value{boolV(mkAnd(mkNot(mkEq(x.scalar(), mkInt(sortRef, 0))), mkEq(mkApp("dyntype", sortMath, x.scalar()), mkInt(sortMath, ex.vc.typeID(tt)))))}
 	case "refof":
 		v := ex.eval(call.Args[0], st)
 		r := v.L[""]
@@ -1307,4 +1378,20 @@ func closedUnder(t *Term) bool {
 		}
 	}
 	return true
+}
+
+// sideFacts: the facts learned while evaluating the body of a quantifier become hypotheses of the quantified goal.
+// Only those that say something about the bound variable are kept (dropping a hypothesis makes the goal stronger).
+func sideFacts(fs []*Term, bv *Term) []*Term {
+	var out []*Term
+	for _, f := range fs {
+		c := f
+		for c.Op == "=>" {
+			c = c.Args[1]
+		}
+		if mentions(c, bv) {
+			out = append(out, f)
+		}
+	}
+	return out
 }
